@@ -2,6 +2,7 @@ import MosnVerif.Drive.Util
 import MosnVerif.Model.FrameChk
 import MosnVerif.Model.FrameSpec
 import MosnVerif.Model.FrameH2
+import MosnVerif.Model.FrameHpack
 /-! driver of C08 (malformed input contained): see `run` for the case kinds. Core Lean only. -/
 namespace MosnVerif.Drive.C08
 open MosnVerif.Drive MosnVerif.Model.Framing MosnVerif.Model.FrameBytes MosnVerif.Model.FrameChk MosnVerif.Model.KVBlock
@@ -69,11 +70,26 @@ def h2dec (bytes : String) (impl : List String) : String :=
     s!"{if agree then "A" else "D"} {if spec then "S" else "V"} {joinWith "|" allowed}"
   | _, _ => "E E bad-case"
 
+/-- `hpack <maxStrLen> <block> => ok:<nameLen>.<valueLen>,… | err | panic`: the real `hpack.Decoder.DecodeFull`.
+Blocks outside the modelled subset (indexed fields, Huffman strings, size updates) only have to be contained. -/
+def hpackK (maxs bytes : String) (impl : List String) : String :=
+  match maxs.toNat?, unhex bytes, impl with
+  | some mx, some b, [o] =>
+    let spec := o != "panic" && o != "hang"
+    match MosnVerif.Model.FrameHpack.decodeFull mx b with
+    | .unmodelled => s!"A {if spec then "S" else "V"} unmodelled"
+    | .err => s!"{if o == "err" then "A" else "D"} {if spec then "S" else "V"} err"
+    | .ok fs =>
+      let m := "ok:" ++ (if fs.isEmpty then "-" else joinWith "," (fs.map (fun f => s!"{f.1}.{f.2}")))
+      s!"{if o == m then "A" else "D"} {if spec then "S" else "V"} {m}"
+  | _, _, _ => "E E bad-case"
+
 def run (caseToks impl : List String) : String :=
   match caseToks with
   | ["dec", proto, bytes] => dec proto bytes impl
   | ["kv", bytes] => kv bytes impl
   | ["h2dec", bytes] => h2dec bytes impl
+  | ["hpack", mx, bytes] => hpackK mx bytes impl
   | ["contain", _, _] =>
     -- containment run (support): the probe client must have been answered after this malformed connection
     (match impl with
